@@ -117,11 +117,15 @@ SyncSer(s) == (CHOOSE i \in 1..Len(Ev.sync) : Ev.sync[i].s = s)
 \* closing a socket with unread input resets the peer -- so for such a client the observations only have to be a
 \* prefix of what was staged)
 EofSet == {Ev.eof[i] : i \in 1..Len(Ev.eof)}
+\* clients the driver does not read at all during a round (they catch up when the driver resumes reading them)
+StalledIn(ln) == IF "stalled" \in DOMAIN ln THEN {ln.stalled[i] : i \in 1..Len(ln.stalled)} ELSE {}
+StalledNow == StalledIn(Ev)
+StalledNext == IF l + 1 <= Len(Log) /\ Log[l + 1].e = "Round" THEN StalledIn(Log[l + 1]) ELSE {}
 NowOK(r, grp) == IF cnt[r] + Len(grp) <= Len(Ev.obs[r])
                  THEN GroupMatch(SubSeq(Ev.obs[r], cnt[r] + 1, cnt[r] + Len(grp)), grp)
                  ELSE r \in EofSet /\ cnt[r] = Len(Ev.obs[r])
 LateMonitor(r) == cst[r] = "monitor" /\ IsRound /\ sdone = SyncSlots /\ \A s \in Slot : pos[s] = Len(Ev.ops[s])
-Mode(r, grp) == IF r \in sdone THEN "carry"
+Mode(r, grp) == IF r \in sdone \/ r \in StalledNow THEN "carry"
                 ELSE IF LateMonitor(r) /\ (carry[r] # <<>> \/ ~NowOK(r, grp)) THEN "carry"
                 ELSE "now"
 \* sy is the client whose closing ping this step is (NoSlot otherwise): the driver stops reading that client at the
@@ -141,7 +145,7 @@ ExplainOK(g, sy) ==
         ELSE IF Mode(r, grp) = "now"
              THEN /\ NowOK(r, grp)
                   /\ (late # <<>> /\ NextIsRound) => CarryMatch(Log[l + 1].obs[r], 0, Append(carry[r], late), 1)
-        ELSE IF NextIsRound THEN CarryMatch(Log[l + 1].obs[r], 0, Append(carry[r], grp), 1) ELSE TRUE
+        ELSE IF NextIsRound /\ r \notin StalledNext THEN CarryMatch(Log[l + 1].obs[r], 0, Append(carry[r], grp), 1) ELSE TRUE
 ExplainS(g, sy) ==
   /\ \/ ExplainOK(g, sy)
      \/ /\ Debug
@@ -230,7 +234,10 @@ Apply0(s, op) ==
     [] op.k = "addmatch" -> Plain(AddMatch(s, op.ser, op.fl, op.rule))
     [] op.k = "rmmatch" -> \/ Plain(RemoveMatch(s, op.ser, op.fl, op.rule))
                            \/ Dev("RemoveMatchAckThenError", Dev_RemoveMatchAckThenError(s, op.ser, op.fl, op.rule))
-    [] op.k = "send" -> \/ Plain(IF FdBad(s, op) THEN Corrupt(s)
+    [] op.k \in {"stall", "unstall"} -> Plain(Nop)
+    [] op.k = "send" -> \/ /\ ~FdBad(s, op) /\ op.dst # BUS /\ op.dst # <<>> /\ Resolve(queue, op.dst) \in StalledNow
+                           /\ Plain(SendFull(s, OpMsgFds(s, op), SubSeq(FdPool(s, op), op.nfd + 1, Len(FdPool(s, op)))))
+                        \/ Plain(IF FdBad(s, op) THEN Corrupt(s)
                                   ELSE IF op.dst = BUS THEN DriverOther(s, OpMsg(op))
                                   ELSE Send(s, OpMsgFds(s, op), SubSeq(FdPool(s, op), op.nfd + 1, Len(FdPool(s, op)))))
                         \/ Dev("LocalReplyUnstamped", Dev_LocalReplyUnstamped(s, OpMsg(op), op.fsnd))
@@ -345,10 +352,11 @@ TEnd ==
   /\ \A n \in DOMAIN act.spawned : \E i \in 1..Len(Ev.starts) : Ev.starts[i].n = n
   /\ l' = l + 1 /\ pos' = ZeroPos /\ sdone' = {}
   /\ IF l + 1 <= Len(Log) /\ Log[l + 1].e = "Round"
-     THEN /\ \A r \in Slot : r \notin gone \cup kicked => CarryMatch(Log[l + 1].obs[r], 0, carry[r], 1)
-          /\ cnt' = [r \in Slot |-> IF r \in gone \cup kicked THEN 0 ELSE CarryLen(carry[r], 1)]
+     THEN /\ \A r \in Slot : r \notin gone \cup kicked \cup StalledNext => CarryMatch(Log[l + 1].obs[r], 0, carry[r], 1)
+          /\ cnt' = [r \in Slot |-> IF r \in gone \cup kicked \cup StalledNext THEN 0 ELSE CarryLen(carry[r], 1)]
      ELSE cnt' = ZeroPos
-  /\ carry' = NoCarry
+  \* (a client that stays unread keeps its backlog)
+  /\ carry' = [r \in Slot |-> IF r \in StalledNext /\ r \notin gone \cup kicked THEN carry[r] ELSE <<>>]
   /\ kicked' = {}
   /\ gone' = gone \cup kicked
   /\ UNCHANGED <<devs, skipd>>
